@@ -191,9 +191,12 @@ func genCluster(r *rand.Rand, p profile, u Universe) Cluster {
 		o := CObj{ID: i, UID: uid, Ver: 1 + r.Intn(2)}
 		applied := chance(r, 0.65)
 		uid++
-		if len(c.Objs) > 0 && chance(r, p.pAlias) {
-			// the same object stored under two identifiers (cohabiting API groups): one uid
-			o.UID = c.Objs[r.Intn(len(c.Objs))].UID
+		if len(c.Objs) > 0 && e.Kind == KPlain && chance(r, p.pAlias) {
+			// the same object stored under two identifiers (cohabiting API groups): one uid;
+			// only between plain kinds (a Namespace or CRD object has no cohabiting twin)
+			if t := c.Objs[r.Intn(len(c.Objs))]; u[t.ID].Kind == KPlain {
+				o.UID = t.UID
+			}
 		}
 		switch k := r.Intn(10); {
 		case k < 6:
